@@ -6,9 +6,9 @@
 (* in_once (inside closeOnce.Do while another Close runs), in_done (receiving from Done()).    *)
 (*                                                                                             *)
 (* Operations of a script:                                                                      *)
-(*   run    ctx.RunCode(code)                 pb  exec  pop                                     *)
-(*   minit  ctx.ModuleInit(impl with code)    pb  pb2 exec pop2  pop   (nested RunCode)         *)
-(*   rac    ctx.ResolveAndCompile(path)       pb  pop                                           *)
+(*   run    ctx.RunCode(code)                 pb  exec  pop            (runr: code raises)      *)
+(*   minit  ctx.ModuleInit(impl with code)    pb  pb2 exec pop2  pop   (nested RunCode; minitr) *)
+(*   rac    ctx.ResolveAndCompile(path)       pb  pop                  (racx, minitc: fail)     *)
 (*   close  ctx.Close()                       c_once [c_begin [in_wait] c_cb c_done] c_ret      *)
 (*   wait   <-ctx.Done()                      w_recv [in_done]                                  *)
 (*                                                                                             *)
@@ -23,7 +23,15 @@ CONSTANTS Procs,       \* goroutine names
           ScriptSet,   \* set of script assignments [Procs -> Seq(Op)]
           AtomicWake   \* see above
 
-Ops == {"run", "minit", "rac", "close", "wait"}
+(* the three execution entry points, each also in a variant that is admitted and then fails     *)
+(* for its own reasons (the code raises; the source does not compile; the file does not exist): *)
+(* every return path of every entry point must release the context exactly once.                *)
+RunLike   == {"run", "runr"}                \* RunCode; runr: the code raises after its yield point
+MinitLike == {"minit", "minitr"}            \* ModuleInit with code (nested RunCode); minitr: that code raises
+RacLike   == {"rac", "racx", "minitc"}      \* ResolveAndCompile (racx: missing file); minitc: ModuleInit whose source does not compile
+ExecOps   == RunLike \cup MinitLike \cup RacLike
+Fails(op) == op \in {"runr", "minitr", "racx", "minitc"}
+Ops == ExecOps \cup {"close", "wait"}
 
 VARIABLES script,                              \* chosen at Init, constant afterwards
           closing, closed, running, once, done, cbs,   \* the context (cbs: close-callback rounds run)
@@ -38,7 +46,7 @@ VARIABLES script,                              \* chosen at Init, constant after
 core == <<script, closing, closed, running, once, done, cbs, pc, ip, res, admitted, closeRet, late, snap, bad>>
 vars == <<core, lastP>>
 
-First(op) == CASE op \in {"run", "minit", "rac"} -> "pb" [] op = "close" -> "c_once" [] op = "wait" -> "w_recv"
+First(op) == CASE op \in ExecOps -> "pb" [] op = "close" -> "c_once" [] op = "wait" -> "w_recv"
 PcAt(s, p, i) == IF i > Len(s[p]) THEN "fin" ELSE First(s[p][i])
 Op(p) == script[p][ip[p]]
 
@@ -59,7 +67,7 @@ EndOp(p, r, pcs, adm, cr, newbad) ==
   /\ closeRet' = cr
   /\ admitted' = adm
   /\ bad' = bad \cup newbad
-        \cup (IF late[p] /\ Op(p) \in {"run", "minit", "rac"} /\ r # "err" THEN {"PostCloseFails"} ELSE {})
+        \cup (IF late[p] /\ Op(p) \in ExecOps /\ r # "err" THEN {"PostCloseFails"} ELSE {})
         \cup (IF Op(p) = "close" /\ snap[p] \cap adm # {} THEN {"CloseWaits"} ELSE {})
 
 (* wake-up of the Close waiter when running reaches zero *)
@@ -77,7 +85,7 @@ PB(p) ==
           /\ UNCHANGED <<closing, closed, running, once, done, cbs>>
      ELSE /\ running' = running + 1
           /\ admitted' = admitted \cup {<<p, ip[p]>>}
-          /\ pc' = [pc EXCEPT ![p] = CASE Op(p) = "run" -> "exec" [] Op(p) = "minit" -> "pb2" [] Op(p) = "rac" -> "pop"]
+          /\ pc' = [pc EXCEPT ![p] = CASE Op(p) \in RunLike -> "exec" [] Op(p) \in MinitLike -> "pb2" [] Op(p) \in RacLike -> "pop"]
           /\ bad' = bad \cup (IF cbs > 0 THEN {"NoAdmitAfterCallbacks"} ELSE {})
           /\ UNCHANGED <<closing, closed, once, done, cbs, ip, res, closeRet, late, snap>>
 
@@ -94,7 +102,7 @@ PB2(p) ==
 (* the executed code reaches the harness' own yield point and goes on *)
 Exec(p) ==
   /\ pc[p] = "exec"
-  /\ pc' = [pc EXCEPT ![p] = IF Op(p) = "minit" THEN "pop2" ELSE "pop"]
+  /\ pc' = [pc EXCEPT ![p] = IF Op(p) \in MinitLike THEN "pop2" ELSE "pop"]
   /\ UNCHANGED <<closing, closed, running, once, done, cbs, ip, res, admitted, closeRet, late, snap, bad>>
 
 (* popBusy: { running--; if running == 0 -> Broadcast } under the mutex *)
@@ -109,7 +117,7 @@ Pop(p) ==
   /\ pc[p] \in {"pop", "pop_err"}
   /\ running' = running - 1
   /\ closed' = IF AtomicWake /\ running - 1 = 0 /\ SomeWaiter THEN TRUE ELSE closed
-  /\ EndOp(p, IF pc[p] = "pop_err" THEN "err" ELSE "ok", WakeWaiters(pc, running - 1 = 0),
+  /\ EndOp(p, IF pc[p] = "pop_err" \/ Fails(Op(p)) THEN "err" ELSE "ok", WakeWaiters(pc, running - 1 = 0),
            admitted \ {<<p, ip[p]>>}, closeRet, {})
   /\ UNCHANGED <<closing, once, done, cbs>>
 
